@@ -163,6 +163,14 @@ class Intervals:
                 truth = True
             if truth is None:
                 continue
+            for _ in range(4):
+                # the tested bool may be a copy of the comparison result
+                if kind == "stmt" and payload["k"] == "use" and op_place(payload["op"]) is not None and not op_place(payload["op"])["proj"]:
+                    dd = fn.whole_defs(op_place(payload["op"])["local"])
+                    if len(dd) == 1:
+                        kind, payload = dd[0][0], dd[0][1]
+                        continue
+                break
             neg = False
             while kind == "stmt" and payload["k"] == "unop" and payload["op"] == "Not":
                 p = op_place(payload["a"])
@@ -338,7 +346,16 @@ class Intervals:
                     n = op_place(rv2["op"])["local"]
                     continue
                 if rv2["k"] == "aggregate" and rv2["kind"].get("agg") in ("tuple", "closure") and last["idx"] < len(rv2["ops"]):
-                    v = self.operand(fn, rv2["ops"][last["idx"]], d2[0][2], depth + 1, seen)
+                    cop = rv2["ops"][last["idx"]]
+                    cpl = op_place(cop)
+                    if cpl is not None and not cpl["proj"]:
+                        # a captured reference `&x` to a variable that is assigned once: reading through it later gives
+                        # the value of x there, so guards that dominate the *use* apply
+                        dr = fn.whole_defs(cpl["local"])
+                        if len(dr) == 1 and dr[0][0] == "stmt" and dr[0][1]["k"] == "ref" and not dr[0][1]["place"]["proj"] \
+                                and len(fn.defs().get(dr[0][1]["place"]["local"], [])) == 1:
+                            return self.place(fn, dr[0][1]["place"], block, depth + 1, seen)
+                    v = self.operand(fn, cop, d2[0][2], depth + 1, seen)
                     if v is not None:
                         return v
                 break
